@@ -185,8 +185,14 @@ Teardown ==
 \* the process "crashed": the durable state is replaced by the snapshot taken at the crash instant
 Restore ==
   /\ IsEvent("Restore")
+  \* everything in flight is gone with the process; what was handled up to the crash instant was
+  \* judged at that instant (HandledBeforeStored at the commit that produced this snapshot)
   /\ st' = [st EXCEPT !.crashed = TRUE,
-              !.stored = [s \in st.srcs |-> IF s \in DOMAIN Ev.stored THEN Ev.stored[s] ELSE 0]]
+              !.stored = [s \in st.srcs |-> IF s \in DOMAIN Ev.stored THEN Ev.stored[s] ELSE 0],
+              !.emitted = [s \in st.srcs |-> <<>>], !.acked = [s \in st.srcs |-> <<>>],
+              !.pend = [d \in st.dsts |-> {}], !.wr = [d \in st.dsts |-> <<>>],
+              !.dlqW = <<>>, !.dlqP = {}, !.dlqDone = {}, !.dlqFail = {}, !.rej = {},
+              !.opens = [c \in {} |-> 0], !.tears = [c \in {} |-> 0]]
   /\ UNCHANGED viol
 
 Call == IsEvent("Call") /\ UNCHANGED <<st, viol>>
